@@ -193,7 +193,12 @@ func newSolver(primaryTimeoutMs int, cross bool) (*Solver, error) {
 	}
 	s := &Solver{p: p, timeoutMs: primaryTimeoutMs}
 	if cross {
-		x, err := startProc("z3", 5000)
+		// the second solver gets 5 s per query in the quick tier and 20 s in the thorough one
+		xms := 5000
+		if primaryTimeoutMs > 20000 {
+			xms = 20000
+		}
+		x, err := startProc("z3", xms)
 		if err == nil {
 			s.x = x
 		}
